@@ -15,6 +15,7 @@ type TypeInfo struct {
 	anonN     int
 	tagOf     map[string]int // dynamic type tags for interfaces, keyed by type string
 	tagTypes  []types.Type
+	litText   map[string]string // strlit constant -> the literal
 }
 
 func NewTypeInfo(u *Universe) *TypeInfo {
@@ -228,6 +229,10 @@ func (ti *TypeInfo) StrLit(v string) *Term {
 		name = fmt.Sprintf("strlit_%s_%x", sanitize(truncate(v, 16)), fnv(v))
 	}
 	ti.u.Declare(name, SStr)
+	if ti.litText == nil {
+		ti.litText = map[string]string{}
+	}
+	ti.litText[name] = v
 	return App(name, SStr)
 }
 
